@@ -236,3 +236,47 @@ def c04(chk):
                         "representative: method content other than the id does not influence the checked behaviour",
                         "refusals that leave the document unchanged are accepted where the model would accept (the property does "
                         "not force acceptance)"]
+
+
+# ------------------------------------------------------------------------------------------------
+# C13 — Timestamp
+# ------------------------------------------------------------------------------------------------
+
+def flip_ts_case(rows, k=3):
+    out = []
+    for r in rows:
+        if r["out"].get("acc") == "yes":
+            r = json.loads(json.dumps(r))
+            r["out"]["sec"] = (r["out"]["sec"] + 1) % 86400     # off by one second
+            out.append(r)
+            if len(out) >= k:
+                break
+    if not out:
+        raise ToolError("canary: no accepting row")
+    return out
+
+
+def corrupt_ts_trace(evs):
+    for i in range(len(evs) // 2, len(evs)):
+        if evs[i]["out"].get("acc") == "yes":
+            evs[i]["out"]["sec"] = (evs[i]["out"]["sec"] + 1) % 86400
+            return "event %d outcome shifted by one second" % (i + 1)
+    raise ToolError("canary: no accepting event")
+
+
+@plan("C13")
+def c13(chk):
+    chk.rule = ("TLC evaluates the calendar oracle of Timestamp.tla on every row of the boundary product: dates at/around the "
+                "range ends, leap days, impossible dates x boundary times (incl. :60, 24:00) x UTC offsets (quick: 12 boundary "
+                "offsets; thorough: every minute -23:59..+23:59) x fraction lengths, unix instants at/around both range ends, "
+                "checked_add/sub with every duration constructor at boundary magnitudes (incl. u32::MAX), and all pairs for "
+                "ordering. Each row is executed on the real Timestamp through every textual entry point; outcome, canonical "
+                "text, and the three round trips are compared. Every row is distinct by construction.")
+    r = chk.mc("MCTimestamp", "Timestamp_%s.cfg" % chk.tier, workers=q(chk, 4, 12), timeout=q(chk, 600, 7000), heap=q(chk, "3g", "12g"))
+    chk.replay(r["cases_file"], timeout=3000)
+    chk.canary_cases(r["cases_file"], flip_ts_case)
+    n_ev, n_tr = q(chk, (4000, 1), (20000, 8))
+    record_and_validate(chk, "C13", "TimestampTrace", "TimestampTrace.cfg", n_ev, n_tr, "timestamp/trace",
+                        canary=corrupt_ts_trace)
+    chk.assumptions += ["leap seconds (:60) may be rejected or read as the preceding second (named deviation LeapSecondStandIn)",
+                        "the calendar arithmetic of the spec is an independent transcription cross-checked by TLC in both directions"]
